@@ -59,6 +59,11 @@ CLAIMED.update({
          "A fixed history that passes the 4096 cap three times with queries at the boundaries, one arrival per data type, and hundreds (quick) to thousands (thorough) of generated histories: the store never exceeds the cap and equals the last arrivals in order, GET /records returns the last min(n, stored) entries in both formats, invalid count/format give 400, wrong methods 405, reset empties, and every field of every record appears by name and canonical value text in the rendered entry. Sampled.",
          "trusted: go -overlay compiles the unmodified collector.go next to the driver; canonical value texts as listed in the evidence", "DESIGN.md section 3 C20"),
 })
+CLAIMED.update({
+ "C19": ("property-based testing: rapid-generated message streams published through the producer into sarama's mock; payloads decoded by a hand-written protobuf wire reader (differential) and by the consumer-side decoder (round trip)",
+         "Generated streams of template and data messages (0..20 records, any subset/order of the schema's elements plus unknown ones, IPv4/IPv6, full integer ranges, UTF-8 strings), both shipped schemas: exactly one Kafka message per data record in order on the configured topic, none for templates, payload = 4-byte big-endian length + exactly that many bytes of protobuf whose fields (read by an independent wire reader keyed by flow.proto's numbers) equal the record's values and the message's export time, sequence number, observation domain and exporter address; the consumer-side decoder accepts the payload and recovers the same values. Sampled.",
+         "trusted: sarama's mock producer, the hand-written wire reader, net.IP.String for address text", "DESIGN.md section 3 C19"),
+})
 HOOK_COMMITS = ["bde829d", "7b897fc", "836c091"]
 
 checks = []
